@@ -362,7 +362,7 @@ def c05(tier, seed):
 
 def c18(tier, seed):
     shapes = regex_shapes('C18', tier, seed)
-    ns, b = ((1,), 2) if tier == 'quick' else ((0, 1, 2), 3)
+    ns, b = ((0, 1), 2) if tier == 'quick' else ((0, 1, 2), 3)
     jobs = [RJ('vh_c18_start', 0, n, b, 0, sh, 'start_char/start_class %s |w|=%d' % (S.show(sh), n)) for sh in shapes for n in ns]
     return regex_spec(jobs, shapes, tier, 'start_char(e,c) for symbolic c against emptiness of the derivative and against the oracle (member c.w => true; true => witness c.v is a member); '
                       'start_class per class with a symbolic member; BadClassId', ns[-1] + 1, b)
